@@ -102,7 +102,7 @@ def min_classes(tier):
 def oracle(line, impl_line):
     mode, a = parse_case(line)
     o = parse_out(impl_line)
-    if o is None or o == [[888888]]:
+    if o is None or o == [[18446744073710440504]]:
         return "implementation crashed or panicked"
     if mode == "lossy":
         exp = [norm(a[0] if a else [])]
